@@ -3,9 +3,9 @@
 // The three real duty handlers (attester, proposer, sync committee) are each driven alone. The
 // harness owns every event source (slot ticker, reorg channel, indices-change channel, the clock
 // behind the beacon-network interface, the beacon node, the validator controller), so the schedule
-// is a pure function of the program. All three channels are unbuffered and after every event a
-// no-op sentinel (ReorgEvent{Previous:false, Current:false}) is sent: when the sentinel send
-// completes the handler is back in its select, i.e. it has finished the previous event.
+// is a pure function of the program. All three channels are unbuffered; the context handed to
+// HandleDuties reports every entry into the handler's select (its ctx.Done() call), so the interpreter
+// knows when the handler has finished an event before it delivers the next one.
 package c16
 
 import (
